@@ -94,6 +94,21 @@ class TryContext:
 class Compiler:
     """Compiles AST to bytecode."""
 
+
+    # Binary opcode behind each compound assignment operator (x op= y)
+    _COMPOUND_OPS = {
+        "+": OpCode.ADD,
+        "-": OpCode.SUB,
+        "*": OpCode.MUL,
+        "/": OpCode.DIV,
+        "%": OpCode.MOD,
+        "&": OpCode.BAND,
+        "|": OpCode.BOR,
+        "^": OpCode.BXOR,
+        "<<": OpCode.SHL,
+        ">>": OpCode.SHR,
+        ">>>": OpCode.USHR,
+    }
     def __init__(self):
         self.bytecode: List[int] = []
         self.constants: List[Any] = []
@@ -1471,20 +1486,7 @@ class Compiler:
                                 self._emit(OpCode.LOAD_NAME, idx)
                     self._compile_expression(node.right)
                     op = node.operator[:-1]  # Remove '='
-                    op_map = {
-                        "+": OpCode.ADD,
-                        "-": OpCode.SUB,
-                        "*": OpCode.MUL,
-                        "/": OpCode.DIV,
-                        "%": OpCode.MOD,
-                        "&": OpCode.BAND,
-                        "|": OpCode.BOR,
-                        "^": OpCode.BXOR,
-                        "<<": OpCode.SHL,
-                        ">>": OpCode.SHR,
-                        ">>>": OpCode.USHR,
-                    }
-                    self._emit(op_map[op])
+                    self._emit(self._COMPOUND_OPS[op])
 
                 self._emit(OpCode.DUP)
                 cell_slot = self._get_cell_var(name)
@@ -1511,7 +1513,15 @@ class Compiler:
                 else:
                     idx = self._add_constant(node.left.property.name)
                     self._emit(OpCode.LOAD_CONST, idx)
-                self._compile_expression(node.right)
+                if node.operator == "=":
+                    self._compile_expression(node.right)
+                else:
+                    # Compound assignment: read the current value through the
+                    # same [obj, prop] pair, combine, then store
+                    self._emit(OpCode.DUP2)  # [obj, prop, obj, prop]
+                    self._emit(OpCode.GET_PROP)  # [obj, prop, old_value]
+                    self._compile_expression(node.right)
+                    self._emit(self._COMPOUND_OPS[node.operator[:-1]])
                 self._emit(OpCode.SET_PROP)
 
         elif isinstance(node, SequenceExpression):
